@@ -188,6 +188,23 @@ static Built build_dom(Rng& r) {
   return b;
 }
 
+
+// the square of a SUM of matrix terms written with the same node (S*S): the expansion must keep both A*B and B*A
+static Built build_matsq(Rng& r) {
+  Built b; int n = r.range(2, 3); int ns = r.range(2, 3);
+  b.args = new Array<const ExprSymbol>(ns); b.nvar = ns * n * n;
+  for (int i = 0; i < ns; i++) b.args->set_ref(i, ExprSymbol::new_(("x" + to_string(i)).c_str(), Dim::matrix(n, n)));
+  const Array<const ExprSymbol>& x = *b.args;
+  const ExprNode* S;
+  switch (r.below(5)) { case 0: S = &(x[0] + x[1]); break; case 1: S = &(x[0] - x[1]); break; case 2: S = &(x[0] + 2.0 * x[1]); break; case 3: S = &(x[0] + transpose(x[1])); break; default: S = &((x[0] + x[1]) - x[ns - 1] * x[0]); }
+  const ExprNode* e;
+  switch (r.below(4)) { case 0: e = &(*S * *S); break; case 1: e = &((*S * *S) + x[0]); break; case 2: e = &((*S * *S) * x[ns - 1]); break; default: e = &(x[0] * (*S * *S)); }
+  b.rows = n; b.cols = n;
+  b.dag = dump_expr(*e, x);
+  b.f = new Function(x, *e, "f");
+  return b;
+}
+
 // a function over vector / matrix symbols built by the symbolic linear algebra generator
 static Built build_linalg(Rng& r, bool outer = true) {
   Built b; int n = r.range(2, 3); LinAlgGen g(r, n); g.outer = outer;
@@ -425,7 +442,7 @@ int main(int argc, char** argv) {
         if (comp) { string d2 = dump_fun(*comp); EMIT("equivcompnf %s %s %d %d => 1\n", fd.c_str(), d2.c_str(), ci, b.nvar); }
       } else if (wl == "c11") {
         GenCfg cfg; cfg.differentiable = r.coin(30); cfg.allow_vec = r.coin(70); cfg.allow_apply = false; cfg.max_depth = r.range(1, 4);
-        Built b = r.coin(6) ? build_dotpow(r) : (r.coin(30) ? build_linalg(r) : build(r, cfg, true, true));
+        Built b = r.coin(4) ? build_matsq(r) : (r.coin(6) ? build_dotpow(r) : (r.coin(30) ? build_linalg(r) : build(r, cfg, true, true)));
         Function& f = *b.f;
         cur = b.dag;
         auto trace = [&](const char* what) { if (getenv("VERIF_TRACE")) { fprintf(stderr, "TRACE %s %s\n", what, cur.c_str()); fflush(stderr); } };
